@@ -8,7 +8,7 @@ SPEC = {
         Suite(name="bucket", harness="vh_bucket", runner="bucket", godev=True,
               model_deps=["theories/Model/Bucket.vo"],
               quick_n=600, thorough_n=12000,
-              rule="cases: 60% random sequences of 4..35 operations (write, read, list, storage.Copy inside the bucket followed by a "
+              rule="cases: buckets are opened through the public constructors (storage.NewBucket / NewAPI with cfg.LocalStorage). 50% random sequences of 4..35 operations (write, read, list, storage.Copy inside the bucket followed by a "
                    "read of the destination and, 75%, by overwrites and reads of BOTH names; copies onto an existing object, onto "
                    "itself, from absent or colliding names; bursts that put a sibling d-x / d.json / 'd x' next to a directory d and "
                    "list the prefixes selecting only the sibling) on the REAL "
@@ -17,7 +17,12 @@ SPEC = {
                    "earlier name (overwrite, child of an object, ancestor directory of an object, sibling, string-prefix only), "
                    "contents empty / JSON / random, listing prefixes cut anywhere (also inside a component); observed: every "
                    "result, the whole directory tree below the bucket directory with contents, and a before/after snapshot of "
-                   "the parent directories (sentinel files, a neighbouring bucket). 20% path construction of ordinary and "
+                   "the parent directories (sentinel files, a neighbouring bucket). Listings use a live context (3/7) or one that is "
+                   "already cancelled, past its deadline, cancelled after k consultations of Err() (mid-walk), or cancelled by the "
+                   "consumer after the first name; observed: names and whether the iterator surfaced an error. 10% multi-bucket "
+                   "cases: the three bucket names of NewAPI under TWO storage roots in one process, 8..37 interleaved "
+                   "operations on shared object names, handles re-opened through NewBucket, all six trees and the rest of the "
+                   "parent directory observed. 20% path construction of ordinary and "
                    "hostile names ('..', '.', empty components) through the real FSObject.Filename. 20% service names "
                    "(upload Week/%g.json with hostile and valid weeks and boundary X values, merge, chart) with the real "
                    "fmt %g, time.Parse and time.Format. distinct = distinct case lines; every case compares implementation "
@@ -34,6 +39,9 @@ SPEC = {
                   "descendants of stored names, fix 8c1d2a3), the listing is "
                   "the stored names with the STRING prefix in component-wise lexicographic (walk) order without duplicates, "
                   "storage.Copy between different names is write(dst, read(src)) and leaves two independent objects, "
+                  "a listing is complete and error-free whatever the state of the caller's context (complete-or-error oracle), "
+                  "buckets identified by (storage root, name) do not interfere in any interleaving (each answers as if its own "
+                  "operations ran alone), "
                   "names of ordinary components resolve to exactly their components below the bucket directory, and the "
                   "upload (Week/X.json), merge (date.json) and chart (date.json, start_end.json) names are such names for "
                   "every week accepted by the strict date parser and every %g rendering over [0-9eE+-.]. One deviation of "
